@@ -94,7 +94,7 @@ func newICSWorld(t *testing.T) *ICSWorld {
 	}
 	nonce = w.appB().EvmKeeper.GetNonce(w.B.GetContext(), w.xOwner())
 	w.Y = crypto.CreateAddress(w.xOwner(), nonce)
-	yctor, err := erc20contracts.ERC20DirectBalanceManipulationContract.ABI.Pack("", big.NewInt(1000))
+	yctor, err := erc20contracts.ERC20DirectBalanceManipulationContract.ABI.Pack("", icsAmount(1000))
 	must(err)
 	res, err = k.CallEVMWithData(w.B.GetContext(), w.xOwner(), nil, append(append([]byte{}, erc20contracts.ERC20DirectBalanceManipulationContract.Bin...), yctor...))
 	must(err)
@@ -137,8 +137,9 @@ func (w *ICSWorld) erc20Of(denom string) (common.Address, bool) {
 	return p.GetERC20Contract(), true
 }
 
-// icsUnit: one model unit of a transferred amount is 2^64+1 base units (amounts beyond every machine-integer bound)
-var icsUnit = new(big.Int).Add(new(big.Int).Lsh(big.NewInt(1), 64), big.NewInt(1))
+// icsUnit: one model unit of a transferred amount is 2^64+2 base units (amounts beyond every machine-integer bound; even,
+// so that the token that passes on only half of what it is given deals in half units)
+var icsUnit = new(big.Int).Add(new(big.Int).Lsh(big.NewInt(1), 64), big.NewInt(2))
 
 func icsAmount(n int64) *big.Int { return new(big.Int).Mul(big.NewInt(n), icsUnit) }
 
@@ -182,7 +183,8 @@ func (w *ICSWorld) project(denoms map[string]string) M {
 	st := M{"enabled": a.AggregateKeeper.GetParams(ctx).EnableAggregate, "xreg": a.AggregateKeeper.IsERC20Registered(ctx, w.X) || xbad, "xbad": xbad,
 		"mx": func() int64 {
 			if xbad {
-				return w.viewBalBig(xc, common.BytesToAddress(mod)).Int64() // the misbehaving token's own small numbers (it halves what it is given)
+				// the misbehaving token halves what it is given: whole units, rounded down
+				return new(big.Int).Quo(w.viewBalBig(xc, common.BytesToAddress(mod)), icsUnit).Int64()
 			}
 			return w.viewBal(xc, common.BytesToAddress(mod))
 		}()}
@@ -314,7 +316,7 @@ func driveICS20(t *testing.T, in, out string, seed int64) {
 				if a.AggregateKeeper.IsERC20Registered(w.B.GetContext(), w.Y) {
 					// Y has no mint: its owner hands tokens over (a direct transfer to the module arrives in full only with the
 					// contract's own rule; the balance the module ends up with is what the model reads back)
-					res, err = a.AggregateKeeper.CallEVMWithData(w.B.GetContext(), w.xOwner(), &w.Y, mustPack(erc20ABI, "transfer", mod, big.NewInt(num(st["n"]))))
+					res, err = a.AggregateKeeper.CallEVMWithData(w.B.GetContext(), w.xOwner(), &w.Y, mustPack(erc20ABI, "transfer", mod, icsAmount(num(st["n"]))))
 				} else {
 					res, err = a.AggregateKeeper.CallEVMWithData(w.B.GetContext(), w.xOwner(), &w.X, mustPack(erc20ABI, "mint", mod, icsAmount(num(st["n"]))))
 				}
